@@ -920,3 +920,27 @@ V("c02-twin-detector-local-rename", "C02", "-", "dask_array/_blockwise.py",
 V("c02-new-user-func-node-slices-inputs", "C02", "R02.7", "dask_array/reductions/_cumulative.py", None, None, expect="CumReduction::_accept_slice", edits=[
   ("dask_array/reductions/_cumulative.py", "    _parameters = [\"array\", \"func\", \"binop\", \"ident\", \"axis\", \"_dtype\"]\n", "    _parameters = [\"array\", \"func\", \"binop\", \"ident\", \"axis\", \"_dtype\"]\n\n    def _accept_slice(self, slice_expr):\n        from dask_array._new_collection import new_collection\n\n        index = slice_expr.index\n        return type(self)(new_collection(self.array)[tuple(index)].expr, *self.operands[1:])\n"),
 ])
+
+# -- task/kernel arity agreement (sa/rules/taskarity.py) ---------------------------------------------------------
+V("c11-concatenate-chunks-calls-one-argument-kernel", "C11", "R11.8", "dask_array/slicing/_setitem.py",
+  "from dask_array._core_utils import concatenate_shaped", "from dask_array._core_utils import concatenate3 as concatenate_shaped", expect="ConcatenateArrayChunks._layer")
+V("c03-concatenate-chunks-calls-one-argument-kernel", "C03", "R03.10", "dask_array/slicing/_setitem.py",
+  "from dask_array._core_utils import concatenate_shaped", "from dask_array._core_utils import concatenate3 as concatenate_shaped", expect="ConcatenateArrayChunks._layer")
+V("c11-setitem-kernel-loses-value-parameter", "C11", "R11.8", "dask_array/slicing/_utils.py",
+  "def setitem(x, v, indices):", "def setitem(x, indices):", expect="setitem_array_expr")
+V("c03-stack-getitem-task-drops-index", "C03", "R03.10", "dask_array/_chunk.py",
+  "def getitem(obj, index):", "def getitem(obj, index, asarray):", expect="getitem")
+V("c03-shuffle-task-passes-unknown-keyword", "C03", "R03.10", "dask_array/_shuffle.py",
+  "def concatenate_arrays(arrs, sorter, axis):", "def concatenate_arrays(arrs, sorter):", expect="Shuffle._layer")
+V("c03-twin-kernel-gains-defaulted-parameter", "C03", "-", "dask_array/_shuffle.py",
+  "def concatenate_arrays(arrs, sorter, axis):", "def concatenate_arrays(arrs, sorter, axis, _copy=False):", twin=True)
+V("c11-twin-concatenate-shaped-renamed-import", "C11", "-", "dask_array/slicing/_setitem.py",
+  "from dask_array._core_utils import concatenate_shaped", "from dask_array._core_utils import concatenate_shaped as _cs\n\nconcatenate_shaped = _cs", twin=True)
+V("c03-isin-kernel-keyword-renamed", "C03", "R03.11", "dask_array/routines/_search.py",
+  "def _isin_kernel(element, test_elements, assume_unique=False):\n    values = np.isin(element.ravel(), test_elements, assume_unique=assume_unique)", "def _isin_kernel(element, test_elements, unique=False):\n    values = np.isin(element.ravel(), test_elements, assume_unique=unique)", expect="isin")
+V("c03-searchsorted-block-gains-required-parameter", "C03", "R03.11", "dask_array/routines/_search.py",
+  "def _searchsorted_block(x, y, side):", "def _searchsorted_block(x, y, side, sorter):", expect="searchsorted")
+V("c03-fftfreq-block-loses-parameter", "C03", "R03.11", "dask_array/fft.py",
+  "def _fftfreq_block(i, n, d):", "def _fftfreq_block(i, n):\n    d = 1.0", expect="fftfreq")
+V("c03-twin-matmul-kernel-defaulted-parameter", "C03", "-", "dask_array/linalg/_tensordot.py",
+  "def _matmul(a, b):", "def _matmul(a, b, _xp=None):", twin=True)
